@@ -10,6 +10,7 @@
   `Polyline.intersect_plane`); "no entry" is absence from the list `Polyline.intersectPlane` returns.
 -/
 import PW.Model.PlaneXsect
+import PW.Gen.Xsect
 import PW.Lemmas.Vec
 import PW.Lemmas.PlaneXsect
 import Mathlib.Tactic.Ring
@@ -536,5 +537,118 @@ example :
     intersectSegmentWithPlane 1000 ⟨0, 0, -1⟩ ⟨2, 0, 4⟩ pl.ref pl.n = some ⟨1/2, 0, 0⟩ ∧
     p.intersectPlane pl = [(0, some ⟨1/2, 0, 0⟩), (2, some ⟨0, 2, 0⟩), (3, some ⟨0, 2, 0⟩)] := by
   decide +kernel
+
+/-! ## what the model takes from the source
+
+`harness/translate/c14.py` reads the guards, bounds tests, NaN rules and the weighted-average formula of
+`Plane._line_xsection`, `_line_segment_xsection`, `line_xsections`, `line_segment_xsections`
+(`polliwog/plane/_plane_object.py`), `intersect_segment_with_plane` (`polliwog/plane/_plane_intersect.py`) and
+`Polyline.intersect_plane` (`polliwog/polyline/_polyline_object.py`) out of the source text into `PW/Gen/Xsect.lean` on
+every run (local names replaced by what they were assigned; DENOM, PT, DENOMS, MASKED, PTS, VALID, T, SD, WHICH, ED are
+structural labels).  The theorems below state that each generated value is the one the hand-written model
+`PW/Model/PlaneXsect.lean` was written from — and, where the literal is a Lean literal of the model, that the model
+computes with exactly the generated value — so that an edit of one of them in the source breaks a proof obligation. -/
+
+/-- `_line_xsection`: `None` when `np.dot(ray, normal) == 0`, else `dot(ref − pt, normal) / denom * ray + pt`:
+    the model's `lineXsection` tests exactly the generated comparison. -/
+theorem gen_line_xsection :
+    (PW.Gen.Xsect.parallelCmp = .eq ∧ PW.Gen.Xsect.parallelRhs = 0 ∧
+      PW.Gen.Xsect.denomSrc = "np.dot(ray, self.normal)" ∧ PW.Gen.Xsect.parallelResult = "None") ∧
+    PW.Gen.Xsect.lineXsectionSrc = "np.dot(-pt + self.reference_point, self.normal) / DENOM * ray + pt" ∧
+    ∀ (pl : Plane K) (pt ray : V3 K), pl.lineXsection pt ray =
+      if PW.Gen.Xsect.parallelCmp.test (ray.dot pl.n) ((PW.Gen.Xsect.parallelRhs : Int) : K) then none
+      else some (V3.smul ((pl.ref - pt).dot pl.n / ray.dot pl.n) ray + pt) := by
+  refine ⟨⟨by decide, by decide, rfl, rfl⟩, rfl, ?_⟩
+  intro pl pt ray
+  simp [lineXsection, PW.Gen.Cmp.test, PW.Gen.Xsect.parallelCmp, PW.Gen.Xsect.parallelRhs]
+
+/-- the bounds test of `_line_segment_xsection`: `any(pt > a & pt > b) or any(pt < a & pt < b)` (normal form:
+    `a < PT and b < PT`, `PT < a and PT < b`): the model's `outOfBounds` is exactly the generated comparisons, per
+    coordinate. -/
+theorem gen_bounds_test :
+    (PW.Gen.Xsect.aboveACmp = .lt ∧ PW.Gen.Xsect.aboveBCmp = .lt ∧ PW.Gen.Xsect.belowACmp = .lt ∧
+      PW.Gen.Xsect.belowBCmp = .lt) ∧
+    PW.Gen.Xsect.boundsSrc = "any(a < PT and b < PT) or any(PT < a and PT < b)" ∧
+    ∀ (pt a b : V3 K), outOfBounds pt a b =
+      (((PW.Gen.Xsect.aboveACmp.test a.x pt.x && PW.Gen.Xsect.aboveBCmp.test b.x pt.x) ||
+        (PW.Gen.Xsect.aboveACmp.test a.y pt.y && PW.Gen.Xsect.aboveBCmp.test b.y pt.y) ||
+        (PW.Gen.Xsect.aboveACmp.test a.z pt.z && PW.Gen.Xsect.aboveBCmp.test b.z pt.z)) ||
+       ((PW.Gen.Xsect.belowACmp.test pt.x a.x && PW.Gen.Xsect.belowBCmp.test pt.x b.x) ||
+        (PW.Gen.Xsect.belowACmp.test pt.y a.y && PW.Gen.Xsect.belowBCmp.test pt.y b.y) ||
+        (PW.Gen.Xsect.belowACmp.test pt.z a.z && PW.Gen.Xsect.belowBCmp.test pt.z b.z))) := by
+  refine ⟨by decide, rfl, ?_⟩
+  intro pt a b
+  rfl
+
+/-- `_line_segment_xsection` intersects the carrying line `(a, b − a)` and returns `None` when that is not `None` and
+    the bounds test holds; the public wrappers only flatten their arguments (the model's `lineSegmentXsection`). -/
+theorem gen_segment_xsection :
+    PW.Gen.Xsect.segmentLineSrc = "self._line_xsection(a, -a + b)" ∧
+    PW.Gen.Xsect.segmentNoneCheckSrc = "PT is not None" ∧ PW.Gen.Xsect.boundsRejectResult = "None" ∧
+    PW.Gen.Xsect.lineWrapperSrc = "self._line_xsection(np.asarray(pt).ravel(), np.asarray(ray).ravel())" ∧
+    PW.Gen.Xsect.segmentWrapperSrc = "self._line_segment_xsection(np.asarray(a).ravel(), np.asarray(b).ravel())" :=
+  ⟨rfl, rfl, rfl, rfl, rfl⟩
+
+/-- the stacked routines: `denoms == 0` rows get a NaN denominator and the flag `False`; the segment form applies the
+    same bounds test row-wise and stores NaN rows (the model's `lineXsections`, `lineSegmentXsections`: `List.zipWith`
+    of the single forms). -/
+theorem gen_stacked_xsections :
+    (PW.Gen.Xsect.stackParallelCmp = .eq ∧ PW.Gen.Xsect.stackParallelRhs = 0 ∧
+      PW.Gen.Xsect.stackDenomSrc = "np.dot(rays, self.normal)" ∧ PW.Gen.Xsect.stackMaskOk = true) ∧
+    PW.Gen.Xsect.stackPointSrc =
+      "np.vstack([np.dot(-pts + self.reference_point, self.normal) / MASKED, np.dot(-pts + self.reference_point, self.normal) / MASKED, np.dot(-pts + self.reference_point, self.normal) / MASKED]).T * rays + pts" ∧
+    PW.Gen.Xsect.segmentStackSrc =
+      "(_set(PTS, _0[~_set(VALID, _0[VALID], ~(np.any(PTS[VALID] < a[VALID] and PTS[VALID] < b[VALID], axis=1) or np.any(a[VALID] < PTS[VALID] and b[VALID] < PTS[VALID], axis=1)))], np.nan), _set(VALID, _0[VALID], ~(np.any(PTS[VALID] < a[VALID] and PTS[VALID] < b[VALID], axis=1) or np.any(a[VALID] < PTS[VALID] and b[VALID] < PTS[VALID], axis=1))))" :=
+  ⟨⟨by decide, by decide, rfl, by decide⟩, rfl, rfl⟩
+
+/-- `intersect_segment_with_plane`: `T = nan_to_num(dot(q − start, n) / dot(vec, n))`, row `start + T * vec`, set to NaN
+    when `T < 0` or `T > 1`: the model's `segmentRow` tests exactly the generated comparisons and bounds. -/
+theorem gen_segment_nan_rules :
+    (PW.Gen.Xsect.nanLowCmp = .lt ∧ PW.Gen.Xsect.nanLowRhs = 0 ∧ PW.Gen.Xsect.nanHighCmp = .gt ∧
+      PW.Gen.Xsect.nanHighRhs = 1 ∧ PW.Gen.Xsect.nanRulesOk = true) ∧
+    PW.Gen.Xsect.paramSrc =
+      "np.nan_to_num(vg.dot(points_on_plane - start_points, plane_normals) / vg.dot(segment_vectors, plane_normals))" ∧
+    PW.Gen.Xsect.pointSrc = "T.reshape(-1, 1) * segment_vectors + start_points" ∧
+    ∀ (t : K) (start vec : V3 K), segmentRow t start vec =
+      if PW.Gen.Xsect.nanLowCmp.test t ((PW.Gen.Xsect.nanLowRhs : Int) : K) then none
+      else if PW.Gen.Xsect.nanHighCmp.test t ((PW.Gen.Xsect.nanHighRhs : Int) : K) then none
+      else some (start + V3.smul t vec) := by
+  refine ⟨by decide, rfl, rfl, ?_⟩
+  intro t start vec
+  simp [segmentRow, PW.Gen.Cmp.test, PW.Gen.Xsect.nanLowCmp, PW.Gen.Xsect.nanLowRhs, PW.Gen.Xsect.nanHighCmp,
+    PW.Gen.Xsect.nanHighRhs]
+
+/-- `Polyline.intersect_plane`: the edges with `abs(sign(d_a) + sign(d_b)) != 2`; weights `1 − |d| / (|d_a| + |d_b|)`
+    on the two end points: the model's `edgeSelected` and `edgePoint` compute with exactly the generated comparison,
+    bound and weight coefficients. -/
+theorem gen_intersect_plane :
+    (PW.Gen.Xsect.signedDistancesSrc = "plane.signed_distance(self.v)" ∧ PW.Gen.Xsect.selectCmp = .ne ∧
+      PW.Gen.Xsect.selectLhs = "np.abs(np.sign(SD)[self.e].sum(axis=1))" ∧ PW.Gen.Xsect.selectRhs = 2 ∧
+      PW.Gen.Xsect.endpointDistSrc = "np.abs(SD[self.e[WHICH]])" ∧
+      PW.Gen.Xsect.tSrc = "ED / ED.sum(axis=1)[:, np.newaxis]" ∧
+      PW.Gen.Xsect.weightCoef = -1 ∧ PW.Gen.Xsect.weightConst = 1 ∧ PW.Gen.Xsect.weightsOnSelected = true ∧
+      PW.Gen.Xsect.samePoints = true) ∧
+    PW.Gen.Xsect.pointsSrc = "((-T[:, :, np.newaxis] + 1) * self.segments[WHICH]).sum(axis=1)" ∧
+    (∀ da db : K, edgeSelected da db =
+      PW.Gen.Xsect.selectCmp.test (Plane.sgn da + Plane.sgn db).natAbs PW.Gen.Xsect.selectRhs.toNat) ∧
+    ∀ (da db : K) (a b : V3 K), edgePoint da db a b =
+      if absK da + absK db == 0 then none
+      else some
+        (V3.smul (((PW.Gen.Xsect.weightCoef : Int) : K) * (absK da / (absK da + absK db)) +
+            ((PW.Gen.Xsect.weightConst : Int) : K)) a +
+         V3.smul (((PW.Gen.Xsect.weightCoef : Int) : K) * (absK db / (absK da + absK db)) +
+            ((PW.Gen.Xsect.weightConst : Int) : K)) b) := by
+  refine ⟨⟨rfl, by decide, rfl, by decide, rfl, rfl, by decide, by decide, by decide, by decide⟩, rfl, ?_, ?_⟩
+  · intro da db
+    rw [Bool.eq_iff_iff]
+    simp [edgeSelected, PW.Gen.Cmp.test, PW.Gen.Xsect.selectCmp, PW.Gen.Xsect.selectRhs]
+  · intro da db a b
+    have h : ∀ x : K, ((PW.Gen.Xsect.weightCoef : Int) : K) * x + ((PW.Gen.Xsect.weightConst : Int) : K) = 1 - x := by
+      intro x
+      simp only [PW.Gen.Xsect.weightCoef, PW.Gen.Xsect.weightConst]
+      push_cast
+      ring
+    simp only [h]
+    rfl
 
 end PW.C14
